@@ -1,6 +1,6 @@
 #!/bin/bash
 # Runs every behaviour-preserving refactoring under /tmp/wt/outr (and /verif/refactors) through all checks.
-for p in $(ls -d /tmp/wt/outr/*/r* /verif/refactors/*/ 2>/dev/null); do
+for p in $(ls -d /verif/refactors/*/ 2>/dev/null); do
   [ -f $p/patch.diff ] || continue
   echo "#### $p"
   W=${W:-230} /verif/tools/try_refactor.sh $p/patch.diff
